@@ -1,9 +1,10 @@
 (* C19 — exported theorems only: each is closed by [exact] and followed by Print Assumptions. *)
 From Coq Require Import List ZArith Bool.
 From Verif Require Import C19.Model C19.ModelRsv C19.ModelDev C19.ModelQuota C19.Spec C19.SpecRsv C19.SpecDev
-  C19.SpecQuota C19.Decode
+  C19.SpecQuota C19.Decode C19.ModelSched C19.SpecSched
   C19.Proofs_Codec C19.Proofs_Ledger C19.Proofs_Restart C19.Proofs_Snapshot C19.Proofs_Main
-  C19.Proofs_Excl C19.Proofs_Rsv C19.Proofs_Dev C19.Proofs_DevSnap C19.Proofs_Quota C19.Proofs_QuotaSnap.
+  C19.Proofs_Excl C19.Proofs_Rsv C19.Proofs_Dev C19.Proofs_DevSnap C19.Proofs_Quota C19.Proofs_QuotaSnap
+  C19.Proofs_Sched.
 Import ListNotations.
 Open Scope Z_scope.
 
@@ -150,6 +151,54 @@ Theorem c19_quota_restart_checked : forall c,
 Proof. exact quota_restart. Qed.
 Print Assumptions c19_quota_restart_checked.
 
+(* ---- the Reservation object's own path into the scheduler: eventhandlers.addReservation /
+        updateReservation / deleteReservation, the reserve pod in the kube-scheduler cache
+        (NodeInfo.Requested), the plugin's ReservationInfo ---- *)
+
+(* one step of the running scheduler on one reservation (create, create-bound, assume, forget, bind,
+   resync, terminate, delete, scheduler-name change, resize, rollback): the entry stays the one the
+   stored object and the in-flight assumption dictate *)
+Theorem c19_sched_step : forall nn d w op w' e,
+  WInv w -> LInv true w e -> wstep nn d w op = Some w' -> (op_k op =? 10) = false ->
+  WInv w' /\ LInv true w' (lstep w w' op e).
+Proof. exact lstep_inv. Qed.
+Print Assumptions c19_sched_step.
+
+(* for every history without a node migration, every cut and every replay script (any order,
+   duplicate Add, Update carrying the same object): the running scheduler holds exactly the Available
+   reservations (on status.nodeName, with status.allocatable) and the in-flight assumptions, the
+   rebuilt one exactly the Available reservations with exactly those values, whatever scheduler name
+   they carry; ReservationInfo exists for exactly those *)
+Theorem c19_sched_restart : forall c ops script, no_migration ops = true ->
+  let l := slive_after c ops in
+  Holds true (sl_w l) (sl_s l) /\ Holds false (sl_w l) (sreplay (s_descs c) (sl_w l) script).
+Proof. exact sched_restart_caches. Qed.
+Print Assumptions c19_sched_restart.
+
+(* no reserved amount is considered free after the restart *)
+Theorem c19_sched_nothing_freed : forall c ops script r, no_migration ops = true ->
+  let l := slive_after c ops in
+  let f := sreplay (s_descs c) (sl_w l) script in
+  w_avail (sl_w l r) = true ->
+  se_st (f r) = 1 /\ se_node (f r) = so_node (we_obj (sl_w l r)) /\ se_amt (f r) = so_alloc (we_obj (sl_w l r))
+  /\ se_known (f r) = true
+  /\ (r_valid (s_descs c) r = true -> held_on f (so_node (we_obj (sl_w l r))) r = true).
+Proof. exact sched_nothing_freed. Qed.
+Print Assumptions c19_sched_nothing_freed.
+
+Theorem c19_sched_replay_order_irrelevant : forall c ops s1 s2 r, no_migration ops = true ->
+  let l := slive_after c ops in
+  got_cache (sreplay (s_descs c) (sl_w l) s1 r) = got_cache (sreplay (s_descs c) (sl_w l) s2 r)
+  /\ se_known (sreplay (s_descs c) (sl_w l) s1 r) = se_known (sreplay (s_descs c) (sl_w l) s2 r).
+Proof. exact sched_replay_order_irrelevant. Qed.
+Print Assumptions c19_sched_replay_order_irrelevant.
+
+(* the same as the decision procedure the checker runs on the implementation's observables (listing,
+   per-node requested totals recomputed from the history, ReservationInfo), on every case *)
+Theorem c19_sched_restart_checked : forall c, no_migration (s_ops c) = true -> prop_sched c (srun c) = 0.
+Proof. exact sched_restart. Qed.
+Print Assumptions c19_sched_restart_checked.
+
 (* ---- where the faithful model violates the property (findings, replayed on the real code:
         corpus/C19/numa/finding*.case) ---- *)
 
@@ -215,3 +264,9 @@ Example c19_dcase_ok_example :
   dcase_ok (mkDCase 1 2 (100, 100) (100, 0) true 3 [mkDD 0 1 [(1, [(0, (50, 50))]); (2, [(1, (1, 0))])] [(2, [101; 102])]]
                     [(1, 1); (3, 1)] [(4, 1); (1, 1)]) = true.
 Proof. reflexivity. Qed.
+Example c19_scase_example :
+  let c := mkSCase 2 [mkSD (1000, 1024) 3 0; mkSD (500, 0) 0 1]
+                   [mkOp 1 1 0 0 0; mkOp 4 1 2 1000 1024; mkOp 1 2 0 0 0; mkOp 2 2 1 0 0; mkOp 8 1 0 0 0]
+                   [(2, 1); (1, 2); (1, 1); (1, 1)] in
+  no_migration (s_ops c) = true /\ nontrivial_sched c = true.
+Proof. split; reflexivity. Qed.
